@@ -50,6 +50,9 @@ impl AdjacencyListWeighted<usize> {
         assert(!dg_valid(digraph)) by { assert((u, v) == it1.seq()[it1.index()]); assert(digraph.has(u as int, v as int)); }
     @panic 3
         assert(!dg_valid(digraph)) by { assert((u, v) == it1.seq()[it1.index()]); assert(digraph.has(u as int, v as int)); }
+    @before `h.add_arc_weighted(`
+        // the only documented panic of add_arc_weighted left here (tail outside V) also means an invalid source
+        assert(u != v && v < order && (u >= order ==> !dg_valid(digraph))) by { assert((u, v) == it1.seq()[it1.index()]); assert(digraph.has(u as int, v as int)); }
     @*/
 }
 
@@ -79,6 +82,9 @@ impl AdjacencyListWeighted<isize> {
         assert(!dg_valid(digraph)) by { assert((u, v) == it1.seq()[it1.index()]); assert(digraph.has(u as int, v as int)); }
     @panic 3
         assert(!dg_valid(digraph)) by { assert((u, v) == it1.seq()[it1.index()]); assert(digraph.has(u as int, v as int)); }
+    @before `h.add_arc_weighted(`
+        // the only documented panic of add_arc_weighted left here (tail outside V) also means an invalid source
+        assert(u != v && v < order && (u >= order ==> !dg_valid(digraph))) by { assert((u, v) == it1.seq()[it1.index()]); assert(digraph.has(u as int, v as int)); }
     @*/
 }
 
